@@ -476,6 +476,41 @@ def udf_symlinks(cfg, rng):
         ops.append({'k': 'add_symlink_udf', 'iso': '/' + file_ident(cfg, i + 1, 8), 'udf': '/sym%d' % i, 'target': t})
     return ops, sizes
 
+def multi_name_file(cfg, rng):
+    """one content with several names in every namespace the image has (links in ISO9660, two in Joliet, UDF)"""
+    ops, sizes = [], {1: rng.choice([1, 100, 2047, 2048, 3000, 5000]), 2: 7}
+    for d in ('/DIRA', '/DIRB'):
+        op = {'k': 'add_dir', 'iso': d}
+        if cfg.rr:
+            op['rr'] = d.strip('/').lower()
+        if cfg.joliet:
+            op['jol'] = d.lower()
+        if cfg.udf:
+            op['udf'] = d.lower()
+        ops.append(op)
+    op = {'k': 'add_fp', 'blob': 1, 'size': sizes[1], 'iso': '/DIRA/FOO.;1'}
+    if cfg.rr:
+        op['rr'] = 'foo'
+    if cfg.joliet:
+        op['jol'] = '/dira/foo'
+    if cfg.udf:
+        op['udf'] = '/dira/foo'
+    ops.append(op)
+    ln = {'k': 'add_link', 'src_ns': 'iso', 'src': '/DIRA/FOO.;1', 'ns': 'iso', 'path': '/DIRB/BARBAZ.TXT;1'}
+    if cfg.rr:
+        ln['rr'] = 'barbaz.txt'
+    ops.append(ln)
+    if cfg.joliet:
+        ops.append({'k': 'add_link', 'src_ns': 'jol', 'src': '/dira/foo', 'ns': 'jol', 'path': '/dirb/a longer joliet name'})
+        ops.append({'k': 'add_link', 'src_ns': 'iso', 'src': '/DIRA/FOO.;1', 'ns': 'jol', 'path': '/third'})
+    if cfg.udf:
+        ops.append({'k': 'add_link', 'src_ns': 'udf', 'src': '/dira/foo', 'ns': 'udf', 'path': '/dirb/udf link'})
+    op = {'k': 'add_fp', 'blob': 2, 'size': 7, 'iso': '/OTHER.;1'}
+    if cfg.rr:
+        op['rr'] = 'other'
+    ops.append(op)
+    return ops, sizes
+
 RECIPES = {
     'exact_fill': lambda cfg, rng: exact_fill(cfg, rng, 0, True),
     'exact_fill_root': lambda cfg, rng: exact_fill(cfg, rng, 0, False),
@@ -488,6 +523,7 @@ RECIPES = {
     'ce_gap_minus': lambda cfg, rng: ce_gap(cfg, rng, -1),
     'big_records': lambda cfg, rng: big_records(cfg, rng),
     'fat_dir_churn': lambda cfg, rng: fat_dir_churn(cfg, rng),
+    'multi_name_file': lambda cfg, rng: multi_name_file(cfg, rng),
     'deep_tree': lambda cfg, rng: deep_tree(cfg, rng),
     'long_symlinks': lambda cfg, rng: long_symlinks(cfg, rng),
     'udf_fid_cross': lambda cfg, rng: udf_fid_cross(cfg, rng),
